@@ -2,8 +2,11 @@ package main
 
 import (
 	"go/ast"
+	"go/token"
 	"go/types"
 	"strings"
+
+	"golang.org/x/tools/go/cfg"
 )
 
 // C14 — libschema validators.
@@ -261,6 +264,191 @@ func init() {
 				} else {
 					obs = append(obs, mkOb(c, "SCHEMA.number-accessor", u, "constraint "+e.Name, body, Violated, "the comparison does not read both operands with GoFloat64", true))
 				}
+			}
+			return obs
+		}})
+}
+
+func init() {
+	register(&Rule{ID: "SCHEMA.constraints-at-build", Floor: 8,
+		Doc: "a type's constraint list is validated when the type is built: in getHandler (the one function through which s:deftype, s:make-validator and every composite constraint obtain a type handler) a loop over the constraints returns an error for any element that is not a validator (isValidator), and that loop's exit dominates every call that hands the list to a handler constructor; the handler constructors have no other callers — so a malformed constraint is refused before an inverting combinator (s:not, s:when) can read its application-time error as a verdict",
+		Run: func(c *Ctx) []Obligation {
+			fn, fd, pkg := c.LookupFunc("lisp/lisplib/libschema.getHandler")
+			isVal := c.LookupPkgFunc("lisp/lisplib/libschema.isValidator")
+			if fn == nil || isVal == nil {
+				return []Obligation{anchorMissing("SCHEMA.constraints-at-build", "libschema.getHandler / isValidator")}
+			}
+			u := FuncUnit{fn, fd, pkg}
+			info := pkg.TypesInfo
+			fc := c.cfgOf(u, nil)
+			// the constraints parameter: the []*LVal parameter
+			var consP types.Object
+			for _, p := range paramObjs(u) {
+				if sl, ok := p.Type().(*types.Slice); ok && isLValPtr(c, sl.Elem()) {
+					consP = p
+				}
+			}
+			if consP == nil {
+				return []Obligation{mkOb(c, "SCHEMA.constraints-at-build", u, "constraint list parameter", fd, Undecided, "getHandler has no []*LVal parameter", false)}
+			}
+			// the validating loop
+			var loop *ast.RangeStmt
+			ast.Inspect(fd.Body, func(n ast.Node) bool {
+				rs, ok := n.(*ast.RangeStmt)
+				if !ok || identObj(info, rs.X) != consP || rs.Value == nil {
+					return true
+				}
+				elem := identObj(info, rs.Value)
+				// an if whose condition contains !isValidator(elem) and whose body returns
+				ast.Inspect(rs.Body, func(m ast.Node) bool {
+					is, ok := m.(*ast.IfStmt)
+					if !ok {
+						return true
+					}
+					neg := false
+					ast.Inspect(is.Cond, func(k ast.Node) bool {
+						if ue, ok := k.(*ast.UnaryExpr); ok && ue.Op == token.NOT {
+							if ce, ok := ast.Unparen(ue.X).(*ast.CallExpr); ok && originOf(Callee(info, ce)) == isVal && len(ce.Args) == 1 && identObj(info, ce.Args[0]) == elem {
+								neg = true
+							}
+						}
+						return true
+					})
+					if !neg || len(is.Body.List) == 0 {
+						return true
+					}
+					if _, ok := is.Body.List[len(is.Body.List)-1].(*ast.ReturnStmt); ok {
+						// the condition must not be weakened by a conjunction: `!isValidator(c) && x`
+						if be, ok := ast.Unparen(is.Cond).(*ast.BinaryExpr); ok && be.Op == token.LAND {
+							return true
+						}
+						loop = rs
+					}
+					return true
+				})
+				return true
+			})
+			var obs []Obligation
+			if loop == nil {
+				obs = append(obs, mkOb(c, "SCHEMA.constraints-at-build", u, "validating loop", fd, Violated, "getHandler does not refuse a non-constraint in the constraint list when the type is built: (s:deftype \"T\" \"any\" (s:not (s:make-validator \"X\" s:int 5))) then approves every value", true))
+			} else {
+				obs = append(obs, mkOb(c, "SCHEMA.constraints-at-build", u, "validating loop", loop, Proved, "a loop over the constraint list returns an error for any element that is not a validator", true))
+			}
+			var loopBlock *cfg.Block
+			if loop != nil {
+				for _, b := range fc.G.Blocks {
+					if b.Stmt == loop && b.Kind == cfg.KindRangeLoop {
+						loopBlock = b
+					}
+				}
+			}
+			// every call passing the list on
+			ord := &ordinal{}
+			ctors := map[*types.Func]bool{}
+			for _, b := range fc.G.Blocks {
+				if !fc.Live(b) {
+					continue
+				}
+				for _, n := range b.Nodes {
+					for _, ce := range callsIn(n, false) {
+						passes := false
+						for _, a := range ce.Args {
+							if identObj(info, a) == consP {
+								passes = true
+							}
+						}
+						callee := originOf(Callee(info, ce))
+						if !passes || callee == nil {
+							continue
+						}
+						ctors[callee] = true
+						construct := ord.next("hands the list to " + callee.Name())
+						if loopBlock != nil && fc.BlockDominates(loopBlock, b) && b != loopBlock {
+							obs = append(obs, mkOb(c, "SCHEMA.constraints-at-build", u, construct, ce, Proved, "dominated by the validating loop", true))
+						} else {
+							obs = append(obs, mkOb(c, "SCHEMA.constraints-at-build", u, construct, ce, Violated, "the constraint list reaches a handler constructor without having been validated", true))
+						}
+					}
+				}
+			}
+			// the constructors have no other callers (besides each other and getHandler)
+			for callee := range ctors {
+				if callee == fn {
+					continue
+				}
+				sites, refs := c.CallsTo(func(p string) bool { return rel(p) == "lisp/lisplib/libschema" }, callee)
+				for _, s := range append(sites, refs...) {
+					caller := s.Unit.Obj
+					if caller == fn || ctors[caller] {
+						continue
+					}
+					obs = append(obs, mkOb(c, "SCHEMA.constraints-at-build", s.Unit, "other caller of "+callee.Name(), s.Unit.Decl, Violated, "a handler constructor is called from outside getHandler: its constraint list bypasses the construction-time validation", true))
+				}
+			}
+			return obs
+		}})
+}
+
+func init() {
+	register(&Rule{ID: "SCHEMA.success-not-error", Floor: 5,
+		Doc: "every decision taken on the result of applyConstraint in libschema is a test of `.Type == LError` / `!= LError`: success is \"not an error\", not \"nil\" — a key constraint (s:has-key, s:may-have-key) returns the key's name on success (s:no-other-keys collects it), so an IsNil() test reads a successful nested key constraint as a failure",
+		Run: func(c *Ctx) []Obligation {
+			apply := c.LookupPkgFunc("lisp/lisplib/libschema.applyConstraint")
+			isNil := c.LookupMethod("lisp.LVal.IsNil")
+			typeFld := c.LookupField("lisp.LVal.Type")
+			if apply == nil || isNil == nil || typeFld == nil {
+				return []Obligation{anchorMissing("SCHEMA.success-not-error", "libschema.applyConstraint / LVal.IsNil / LVal.Type")}
+			}
+			var obs []Obligation
+			for _, u := range c.Funcs(func(p string) bool { return rel(p) == "lisp/lisplib/libschema" }) {
+				info := u.Pkg.TypesInfo
+				ord := &ordinal{}
+				// locals holding an applyConstraint result
+				res := map[types.Object]bool{}
+				ast.Inspect(u.Decl.Body, func(n ast.Node) bool {
+					if as, ok := n.(*ast.AssignStmt); ok && len(as.Lhs) == len(as.Rhs) {
+						for i, r := range as.Rhs {
+							if ce, ok := ast.Unparen(r).(*ast.CallExpr); ok && originOf(Callee(info, ce)) == apply {
+								if o := identObj(info, as.Lhs[i]); o != nil {
+									res[o] = true
+								}
+							}
+						}
+					}
+					return true
+				})
+				isResult := func(e ast.Expr) bool {
+					e = ast.Unparen(e)
+					if ce, ok := e.(*ast.CallExpr); ok && originOf(Callee(info, ce)) == apply {
+						return true
+					}
+					if o := identObj(info, e); o != nil && res[o] {
+						return true
+					}
+					return false
+				}
+				ast.Inspect(u.Decl.Body, func(n ast.Node) bool {
+					switch x := n.(type) {
+					case *ast.CallExpr:
+						if se, ok := ast.Unparen(x.Fun).(*ast.SelectorExpr); ok && originOf(Callee(info, x)) == isNil && isResult(se.X) {
+							obs = append(obs, mkOb(c, "SCHEMA.success-not-error", u, ord.next("IsNil on a constraint result"), x, Violated,
+								"the result of applyConstraint is tested with IsNil(): a nested key constraint that succeeded returns the key's name, which this reads as a failure ((s:has-key \"a\" (s:has-key \"b\" s:int)) can never match)", true))
+						}
+					case *ast.BinaryExpr:
+						if (x.Op == token.EQL || x.Op == token.NEQ) && FieldOfSelector(info, x.X) == typeFld {
+							if se, ok := ast.Unparen(x.X).(*ast.SelectorExpr); ok && isResult(se.X) {
+								if o, ok := identObjOrSel(info, x.Y).(*types.Const); ok && o.Name() == "LError" {
+									obs = append(obs, mkOb(c, "SCHEMA.success-not-error", u, ord.next("error test on a constraint result"), x, Proved, "decides on Type "+x.Op.String()+" LError", false))
+								} else if ok && o.Name() == "LString" {
+									obs = append(obs, mkOb(c, "SCHEMA.success-not-error", u, ord.next("key-name test on a constraint result"), x, Proved, "reads the key name a successful key constraint returns (the other half of the protocol)", false))
+								} else {
+									obs = append(obs, mkOb(c, "SCHEMA.success-not-error", u, ord.next("type test on a constraint result"), x, Undecided, "the result of applyConstraint is compared with a type other than LError: `"+types.ExprString(x)+"`", true))
+								}
+							}
+						}
+					}
+					return true
+				})
 			}
 			return obs
 		}})
